@@ -56,6 +56,16 @@ pub struct TapSpec {
     pub action: TapAction,
 }
 
+/// Rushing: the corrupted party holds back its messages with this label until every other party
+/// has sent its message of the same round, then sends the XOR of what it received instead (for
+/// n = 2: the victim's own message reflected back).
+#[derive(Clone, Debug, PartialEq, Eq, Hash, Serialize, Deserialize)]
+pub struct RushSpec {
+    pub label: String,
+    /// None = every occurrence
+    pub occ: Option<usize>,
+}
+
 #[derive(Clone, Debug, PartialEq, Serialize, Deserialize)]
 pub struct AttackCase {
     pub base: MpcCase,
@@ -65,11 +75,13 @@ pub struct AttackCase {
     /// crash the corrupted party when it tries to send message k (0-based)
     pub crash_after: Option<usize>,
     pub keep_open: bool,
+    #[serde(default)]
+    pub rush: Vec<RushSpec>,
 }
 
 impl AttackCase {
     pub fn honest(base: MpcCase, corrupt: usize) -> Self {
-        AttackCase { base, corrupt, faults: vec![], taps: vec![], crash_after: None, keep_open: false }
+        AttackCase { base, corrupt, faults: vec![], taps: vec![], crash_after: None, keep_open: false, rush: vec![] }
     }
     pub fn honest_parties(&self) -> Vec<usize> {
         (0..self.base.n()).filter(|p| *p != self.corrupt).collect()
@@ -188,7 +200,50 @@ pub fn build_adversary(case: &AttackCase) -> Adversary {
             }
         }))
     };
-    Adversary { proxy, crash_after: case.crash_after.map(|k| (corrupt, k)), keep_open: case.keep_open, arm }
+    let (hold, late): (Option<crate::sim::net::HoldPred>, Option<crate::sim::net::LateProxy>) = if case.rush.is_empty() {
+        (None, None)
+    } else {
+        let r1 = case.rush.clone();
+        let n = case.base.n();
+        (
+            Some(Box::new(move |m: &MsgMeta| m.from == corrupt && r1.iter().any(|r| r.label == m.label && r.occ.map(|o| o == m.label_occ).unwrap_or(true)))),
+            Some(Box::new(move |msg: &MsgRec, all: &[MsgRec]| {
+                // the honest messages of this round towards the cheater, as their senders produced them
+                let honest = |j: usize| all.iter().find(|x| x.from == j && x.to == corrupt && x.label == msg.label && x.label_occ == msg.label_occ).filter(|x| !x.orig.is_empty());
+                let others: Vec<usize> = (0..n).filter(|j| *j != corrupt).collect();
+                if msg.from == corrupt {
+                    // outbound: XOR of what the honest parties sent (n = 2: the victim's message reflected)
+                    let first = honest(others[0])?;
+                    if n == 2 {
+                        return Some(first.orig.clone());
+                    }
+                    let ty = crate::wire::label_ty(&msg.label)?;
+                    let mut acc = crate::wire::decode_msg(&first.orig, &ty)?;
+                    for j in &others[1..] {
+                        crate::wire::xor_into(&mut acc, &crate::wire::decode_msg(&honest(*j)?.orig, &ty)?);
+                    }
+                    Some(crate::wire::encode_msg(&acc))
+                } else {
+                    // inbound: the cheater's own code sees a round that XORs to zero with what it
+                    // produced itself (n = 2: its own message reflected)
+                    if msg.from != others[0] {
+                        return None;
+                    }
+                    let own = all.iter().find(|x| x.from == corrupt && x.to == msg.from && x.label == msg.label && x.label_occ == msg.label_occ).filter(|x| !x.orig.is_empty())?;
+                    if n == 2 {
+                        return Some(own.orig.clone());
+                    }
+                    let ty = crate::wire::label_ty(&msg.label)?;
+                    let mut acc = crate::wire::decode_msg(&own.orig, &ty)?;
+                    for j in &others[1..] {
+                        crate::wire::xor_into(&mut acc, &crate::wire::decode_msg(&honest(*j)?.orig, &ty)?);
+                    }
+                    Some(crate::wire::encode_msg(&acc))
+                }
+            })),
+        )
+    };
+    Adversary { proxy, hold, late, crash_after: case.crash_after.map(|k| (corrupt, k)), keep_open: case.keep_open, arm }
 }
 
 pub fn run_attack(case: &AttackCase, cfg: &ExecCfg) -> MpcRun {
